@@ -1,6 +1,6 @@
 (* KeyPathExamples.v — the hypotheses of the C10 theorems are satisfiable by non-trivial inputs. *)
 From PG Require Import Common.Tactics Model.KeyPath Model.Hier Proofs.KeyPathArith Proofs.KeyPathParse
-  Proofs.KeyPathSetBase Proofs.KeyPathSetThm Proofs.KeyPathSetInter Proofs.HierTraverse Proofs.HierFlatten.
+  Proofs.KeyPathSetBase Proofs.KeyPathSetThm Proofs.KeyPathSetInter Proofs.HierTraverse Proofs.HierFlatten Proofs.HierCanon.
 Local Open Scope N_scope.
 
 Definition ka : key := KStr [97].
@@ -40,3 +40,12 @@ Proof. apply flat_ok_wfv. apply example_flat_ok. Qed.
 Example example_simple_keys :
   simple_keys (PDict [(KStr [97], PList [PInt 1; PDict [(KStr [48], PNone)]]); (KInt 2, PStr [120])]).
 Proof. repeat (constructor; cbn [fst snd simple_key]; try reflexivity; try exact I). Qed.
+
+Example example_canonical :
+  canonical (PDict [(KStr [97%N], PList [PInt 1; PDict [(KStr [48%N], PNone)]]); (KInt 2, PStr [120%N])]).
+Proof.
+  repeat (first [ apply cn_none | apply cn_int | apply cn_str | apply cn_list | apply cn_dict
+                | apply Forall_nil | apply Forall_cons | reflexivity | exact I
+                | (split; [discriminate | reflexivity])
+                | (apply NoDup_cons; [cbn; intuition discriminate |]) | apply NoDup_nil ]).
+Qed.
